@@ -24,6 +24,27 @@ def parseInt? (s : String) : Option Int :=
   | '-' :: r => if r.isEmpty then none else (natOfChars r 0).map fun n => -(n : Int)
   | r => (natOfChars r 0).map fun n => (n : Int)
 
+def isDigitC (c : Char) : Bool := '0' ≤ c && c ≤ '9'
+
+/-- `std::stringstream(word) >> int` as used by `_recordRead<int>`: optional sign, then the longest
+run of digits (what follows is ignored: `12abc` and `1.5` read as 12 and 1); no digit = failure;
+a value beyond the `int` range is clamped (the stream sets failbit, which `_recordRead` does not see
+when the whole token was consumed) -/
+def parseCInt? (s : String) : Option Int :=
+  let cs := s.toList
+  let (neg, r) : Bool × List Char := match cs with
+    | '-' :: r => (true, r)
+    | '+' :: r => (false, r)
+    | r => (false, r)
+  let ds := r.takeWhile isDigitC
+  if ds.isEmpty then none else
+  let n : Nat := ds.foldl (fun a c => a * 10 + (c.toNat - 48)) 0
+  let v : Int := if neg then -(n : Int) else (n : Int)
+  let rest := r.dropWhile isDigitC
+  if v > 2147483647 then (if rest.isEmpty then some 2147483647 else none)
+  else if v < -2147483648 then (if rest.isEmpty then some (-2147483648) else none)
+  else some v
+
 /-- reading position: remaining tokens of the current line, then the following lines -/
 structure Stream where
   cur  : Line
@@ -121,7 +142,7 @@ def deserDb (lines : List Line) : Option DbFile :=
       if tag ≠ "Db" then none else
       let (ncolT, s1) := readRec "0" s0
       let (nechT, s2) := readRec "0" s1
-      match parseInt? ncolT, parseInt? nechT with
+      match parseCInt? ncolT, parseCInt? nechT with
       | some ncolI, some nechI =>
         if ncolI < 0 ∨ nechI < 0 then none else
         let ncol := ncolI.toNat
@@ -138,6 +159,8 @@ def deserDb (lines : List Line) : Option DbFile :=
         match hdr with
         | none => none
         | some (locs, names, s4) =>
+          -- without columns there is no value to read, whatever the announced number of samples
+          if ncol = 0 then some { ncol := 0, nech := nech, locators := [], names := [], rows := [] } else
           match readRows ncol nech s4 with
           | none => none
           | some (rows, _) => some { ncol := ncol, nech := nech, locators := locs, names := names, rows := rows }
